@@ -2,5 +2,5 @@
 # usage: tools/mut.sh <prop> <file> <sed-expr>   -- apply a textual mutation to /repo, run the check, revert
 P=$1; F=$2; E=$3
 cd /repo && sed -i "$E" $F && (git diff --stat | tail -1) && (GOFLAGS=-mod=mod GOPROXY=off GOSUMDB=off GOTOOLCHAIN=local go build ./... 2>&1 | head -3)
-cd /verif && bin/govc check --property $P --contracts mirror ${4:-} 2>&1 | grep -E "VIOLATION|govc:" | sed 's/replay=.*replays.[A-Z0-9]*.//' | head -${MUTLINES:-8}
+cd /verif && GOVC_EVIDENCE_DIR=/verif/out/evidence-experiments bin/govc check --property $P --contracts mirror ${4:-} 2>&1 | grep -E "VIOLATION|govc:" | sed 's/replay=.*replays.[A-Z0-9]*.//' | head -${MUTLINES:-8}
 git -C /repo checkout -- .
